@@ -77,7 +77,8 @@ pub fn run(st: &mut Stats, rng: &mut Rng, o: &ConvOpts, io: &IntentOpts, prefix:
 
 pub fn case(seed: u64, st: &mut Stats) {
     let mut rng = Rng::new(seed);
-    let o = ConvOpts::full();
+    let mut o = ConvOpts::full();
+    o.hyphen_pos = true;
     let io = IntentOpts::default();
     run(st, &mut rng, &o, &io, "c02");
 }
